@@ -160,7 +160,7 @@ func retainedMarshal(c *Ctx, what string, marshal func(i int) ([]byte, []byte)) 
 
 // interleaved: two readers of the same format consumed in lockstep (after a
 // third one has run to completion) must each deliver what they deliver alone.
-func interleaved(c *Ctx) {
+func interleaved(c *Ctx, only string) {
 	type pull func() (string, bool)
 	mk := func(f *format, data []byte) (pull, func()) {
 		var next func() (string, error, bool)
@@ -231,7 +231,7 @@ func interleaved(c *Ctx) {
 		}, stop
 	}
 	for _, f := range formats {
-		if f.name == "samh" {
+		if f.name == "samh" || (only != "" && f.name != only) {
 			continue
 		}
 		for i := 0; i < c.n(8); i++ {
@@ -439,9 +439,17 @@ func sequtilExtras12(c *Ctx) {
 			got = append(got, hx(x))
 		}
 		cp := append([]byte(nil), buf...)
-		var want []string
-		for x := range sequtil.CanonicalSubsequences(cp, k) {
-			want = append(want, hx(x))
+		var want []string // reference computed without the library (no call in between that could evict cached state)
+		for p := 0; p+k <= len(cp); p++ {
+			w := cp[p : p+k]
+			rc := make([]byte, k)
+			for q := range w {
+				rc[k-1-q] = stdComp(w[q])
+			}
+			if bytes.Compare(rc, w) < 0 {
+				w = rc
+			}
+			want = append(want, hx(w))
 		}
 		oracle := ""
 		if strings.Join(got, ",") != strings.Join(want, ",") {
